@@ -422,6 +422,54 @@ pub fn check_call(call: &Call, st: &mut Stats) -> Result<(), String> {
     Ok(())
 }
 
+/// Executes a raw call for history checks (C13): the result in a bit-exact comparable form, or
+/// None when the call is skipped because its honest result would exceed the fan-out bound.
+pub fn exec_raw(call: &Call) -> Option<Result<Vec<u64>, String>> {
+    let ids = |r: Result<Vec<u64>, String>| Some(r);
+    match call {
+        Call::Lookup { lon, lat, res } => Some(a5::lonlat_to_cell(crate::api::lonlat(*lon, *lat), *res).map(|x| vec![x])),
+        Call::Centre { id } => Some(a5::cell_to_lonlat(*id).map(|p| vec![p.longitude().to_bits(), p.latitude().to_bits()])),
+        Call::Boundary { id, n, closed } => {
+            let segs = [Some(1), Some(3), None][*n as usize % 3];
+            Some(
+                a5::cell_to_boundary(*id, Some(a5::core::cell::CellToBoundaryOptions { closed_ring: *closed, segments: segs }))
+                    .map(|v| v.iter().flat_map(|p| [p.longitude().to_bits(), p.latitude().to_bits()]).collect()),
+            )
+        }
+        Call::Children { id, res } => {
+            let cur = a5::get_resolution(*id);
+            let target = res.unwrap_or(cur.saturating_add(1));
+            if valid_res(cur) && valid_res(target) && target >= cur && codec::num_cells(target) / codec::num_cells(cur) > MAX_FANOUT {
+                return None;
+            }
+            ids(a5::cell_to_children(*id, *res))
+        }
+        Call::Parent { id, res } => Some(a5::cell_to_parent(*id, *res).map(|x| vec![x])),
+        Call::Resolution { id } => Some(Ok(vec![a5::get_resolution(*id) as i64 as u64])),
+        Call::NumCells { res } => Some(Ok(vec![a5::get_num_cells(*res)])),
+        Call::Area { res } => Some(Ok(vec![a5::cell_area(*res).to_bits()])),
+        Call::Compact { ids: v } => ids(a5::compact(v)),
+        Call::Uncompact { ids: v, res } => {
+            if valid_res(*res) {
+                let mut total: u128 = 0;
+                for id in v {
+                    let cur = a5::get_resolution(*id);
+                    if valid_res(cur) && cur <= *res {
+                        total += codec::num_cells(*res) / codec::num_cells(cur);
+                    }
+                }
+                if total > MAX_FANOUT {
+                    return None;
+                }
+            }
+            ids(a5::uncompact(v, *res))
+        }
+        Call::Res0 => ids(a5::get_res0_cells()),
+        Call::Hex { v } => Some(Ok(a5::u64_to_hex(*v).bytes().map(|b| b as u64).collect())),
+        Call::HexParse { s } => Some(a5::hex_to_u64(s).map(|x| vec![x])),
+    }
+}
+
 // ---------------------------------------------------------------------------------------------
 // child side
 
